@@ -108,7 +108,27 @@ func oracleC13(x *Exec, so *StepObs) {
 		x.Sim.Probe("c13-rollback")
 	case "upgrade":
 		dep := so.Before.Deployed()
-		if len(dep) != 1 {
+		// the currently deployed revision by the history itself: the one the most recent successful operation created.
+		// (A failed operation in between does not change which revision is deployed.)
+		model := 0
+		for _, prev := range x.Steps {
+			if prev == so || prev.After == nil || len(prev.Results) != 1 {
+				continue
+			}
+			pr := prev.Results[0]
+			if pr.OK && !pr.Crashed && !isDryOp(&pr.Op) && (pr.Op.Op == "install" || pr.Op.Op == "upgrade" || pr.Op.Op == "rollback") {
+				if c := createdRev(prev); c != 0 {
+					model = c
+				}
+			}
+		}
+		switch {
+		case len(dep) == 1 && (model == 0 || dep[0] == model):
+		case len(dep) == 0 && model != 0 && so.Before.Rev(model) != nil:
+			// the ledger marks nothing deployed although an operation succeeded and none succeeded since
+			dep = []int{model}
+			x.Sim.Probe("c13-deployed-from-history")
+		default:
 			return // no (unique) deployed revision: the value clause is not defined
 		}
 		d := so.Before.Rev(dep[0])
@@ -273,7 +293,13 @@ func genC13(seed, index uint64, tier string) *Plan {
 	n := 2 + g.N(6)
 	for i := 0; i < n; i++ {
 		if g.Chance(0.2) {
-			p.Steps = append(p.Steps, Step{Op: &OpSpec{Op: "rollback", Revision: g.N(4)}})
+			st := Step{Op: &OpSpec{Op: "rollback", Revision: g.N(4)}}
+			if g.Chance(0.3) {
+				// a rollback that fails while waiting: the revision that was deployed stays the deployed one
+				st.Op.Wait = true
+				st.Faults = []FaultSpec{{Kind: FNotReady, Pred: &Pred{Nth: 1}}}
+			}
+			p.Steps = append(p.Steps, st)
 			continue
 		}
 		op := OpSpec{Op: "upgrade", Chart: g.N(nv)}
@@ -292,6 +318,10 @@ func genC13(seed, index uint64, tier string) *Plan {
 		if g.Chance(0.2) {
 			// a failed upgrade in between: afterwards the last revision is not the deployed one
 			st.Faults = []FaultSpec{{Kind: FReject, Code: 403, Pred: &Pred{Storage: boolp(false), Mutating: boolp(true), PathHas: "/namespaces/", Nth: 1}}}
+			if g.Chance(0.4) {
+				st.Op.Wait = true
+				st.Faults = []FaultSpec{{Kind: FNotReady, Pred: &Pred{Nth: 1}}}
+			}
 		}
 		p.Steps = append(p.Steps, st)
 	}
